@@ -60,6 +60,14 @@ ISP = "tangelo/toolboxes/molecular_computation/integral_solver_pyscf.py"
 PUCCDF = "tangelo/toolboxes/ansatz_generator/puccd.py"
 VCA = "tangelo/toolboxes/ansatz_generator/variational_circuit.py"
 
+GUCCF = "tangelo/toolboxes/ansatz_generator/_general_unitary_cc.py"
+SIMF = "tangelo/linq/simulator.py"
+MBF = "tangelo/linq/helpers/circuits/measurement_basis.py"
+Z2TF = "tangelo/toolboxes/operators/z2_tapering.py"
+DMETORBF = "tangelo/problem_decomposition/dmet/_helpers/dmet_orbitals.py"
+IQPEF = "tangelo/algorithms/projective/iqpe.py"
+QPEF2 = "tangelo/algorithms/projective/qpe.py"
+
 FIRE = [
     # ---- C11
     ("trim-keeps-old-index-set", "C11", [(CIRC, "        self._qubit_indices = set(range(len(qubits_in_use)))\n", "")], "K2.class-invariant"),
@@ -272,6 +280,21 @@ FIRE = [
     ("scbk-vector-beta-first", "C05", [(SV, "            warnings.warn(\"Symmetry-conserving Bravyi-Kitaev enforces all spin-up followed by all spin-down ordering.\", RuntimeWarning)\n            vector = np.concatenate((vector[::2], vector[1::2]))", "            warnings.warn(\"Symmetry-conserving Bravyi-Kitaev enforces all spin-up followed by all spin-down ordering.\", RuntimeWarning)\n            vector = np.concatenate((vector[1::2], vector[::2]))")], "K8.vector-ordering"),
     ("hcore-in-stored-orbitals", "C04", [(ISP, "        one_electron_integrals = mo_coeff.T @ sqmol.mean_field.get_hcore() @ mo_coeff", "        one_electron_integrals = self.mo_coeff.T @ sqmol.mean_field.get_hcore() @ self.mo_coeff")], "K7.explicit-argument"),
     ("ao-integrals-computed-once", "C04", [(ISP, "        two_electron_integrals = self.ao2mo.kernel(pyscf_mol.intor(\"int2e\"), mo_coeff)", "        if getattr(self, \"_eri_ao\", None) is None:\n            self._eri_ao = pyscf_mol.intor(\"int2e\")\n        two_electron_integrals = self.ao2mo.kernel(self._eri_ao, mo_coeff)")], "K1.cache-key"),
+    ("uccsd-explicit-zero-spin-ignored", "C12", [(UCCSD, "        self.spin = molecule.active_spin if spin is None else spin", "        self.spin = spin or molecule.active_spin")], "K7.falsy-default"),
+    ("pool-honours-ordering-flag", "C12", [(GUCCF, "    operators = get_all_excitations(n_qubits // 2, up_down=False)  # get all operator input arguments", "    operators = get_all_excitations(n_qubits // 2, up_down=up_down)  # get all operator input arguments")], "K9.pool-conservation"),
+    ("do-commute-any-term", "C16", [(MULTI, "    if not term_resolved:\n        return not np.any(term_bool)\n    else:\n        return np.logical_not(term_bool)", "    commutes = np.logical_not(term_bool)\n\n    return commutes if term_resolved else bool(np.any(commutes))")], "K9.multiform-semantics"),
+    ("array-product-phase-table-transposed", "C16", [(MULTI, "            new_cs = c_calc[self.integer[term_i], other_operator.integer]", "            new_cs = c_calc[other_operator.integer, self.integer[term_i]]")], "K9.multiform-semantics"),
+    ("get-backend-default-target-drops-noise", "C19", [(SIMF, "    if target is None:\n        target = target_dict[default_simulator]\n    # If target is a string use target_dict to return built-in backend\n    elif isinstance(target, str):", "    if target is None:\n        return get_backend(default_simulator, n_shots=n_shots, **kwargs)\n    if isinstance(target, str):")], "K7.backend-options"),
+    ("qiskit-noise-first-gate-wins", "C19", [(NOISE, "            if qiskit_gate not in qnd:\n                qnd[qiskit_gate] = list(noises)\n            else:\n                noise_types = [nt for nt, np in qnd[qiskit_gate]]\n                for noise in noises:\n                    if noise[0] not in noise_types:\n                        noise_types.append(noise[0])\n                        qnd[qiskit_gate].append(noise)", "            qnd.setdefault(qiskit_gate, list(noises))")], "K9.noise-merge"),
+    ("split-assumes-prefix", "C18", [(POST, "    other_indices = [i for i in range(key_length) if i not in indices]", "    other_indices = list(range(len(indices), key_length))")], "K9.positions"),
+    ("compatible-bases-wildcard", "C18", [(MBF, "    return [b for b in basis_list if all([(o == p or o == \"I\") for o, p in zip(op, b)])]", "    return [b for b in basis_list if all([(o == p or \"I\" in (o, p)) for o, p in zip(op, b)])]")], "K9.assembly"),
+    ("taper-sector-zip-hoisted", "C14", [(Z2TF, "        for index, eigenvalue in zip(q_indices, eigenvalues):", "        for index, eigenvalue in tapered_sector:"), (Z2TF, "    def do_taper(operator, eigenvalues=eigenvalues):", "    tapered_sector = zip(q_indices, eigenvalues)\n\n    def do_taper(operator, eigenvalues=eigenvalues):")], "K1.closure-reuse"),
+    ("trim-relabels-in-set-order", "C14", [(CIRC, "        mapping = {ind: i for i, ind in enumerate(sorted(list(qubits_in_use)))}", "        mapping = {ind: i for i, ind in enumerate(qubits_in_use)}")], "K12.relabelling-order"),
+    ("trim-relabels-in-set-order-circuit", "C09", [(CIRC, "        mapping = {ind: i for i, ind in enumerate(sorted(list(qubits_in_use)))}", "        mapping = {ind: i for i, ind in enumerate(qubits_in_use)}")], "K12.relabelling-order"),
+    ("dmet-uhf-split-ignores-spin", "C15", [(DMETORBF, "        elec_diff = self.mol_full.spin\n        elec_paired = self.number_active_electrons-elec_diff\n        orbital_paired = elec_paired // 2", "        orbital_paired, elec_diff = divmod(self.number_active_electrons, 2)")], "K9.alpha-beta"),
+    ("iqpe-feedback-overwrites", "C20", [(IQPEF, "                self.phase += 1/2**(self.bitplace)", "                self.phase = 1/2**(self.bitplace)")], "K9.iqpe-feedback"),
+    ("qpe-vector-reference-ignores-ordering", "C20", [(QPEF2, "                self.reference_circuit = vector_to_circuit(get_mapped_vector(self.ref_state, self.qubit_mapping, self.up_then_down))", "                self.reference_circuit = vector_to_circuit(get_mapped_vector(self.ref_state, self.qubit_mapping))")], "K7.encoding-forwarding"),
+    ("reindex-accepts-duplicates", "C11", [(CIRC, " or len(set(new_indices)) != len(new_indices):\n            raise ValueError(\"The new indices must be distinct non-negative integers\")", ":\n            raise ValueError(\"The new indices must be distinct non-negative integers\")")], "K6.gate-validation"),
 ]
 
 SILENT = [
@@ -367,4 +390,12 @@ SILENT = [
     ("deflation-coeff-float-default", "C08", [(VQE, "        self.deflation_coeff: float = copt_dict.pop(\"deflation_coeff\", 1)", "        self.deflation_coeff: float = copt_dict.pop(\"deflation_coeff\", 1.0)")]),
     ("explicit-mo-coeff-conditional-expression", "C04", [(ISP, "        if mo_coeff is None:\n            mo_coeff = self.mo_coeff\n\n        if sqmol.uhf:", "        mo_coeff = self.mo_coeff if mo_coeff is None else mo_coeff\n\n        if sqmol.uhf:")]),
     ("scbk-vector-explicit-slices", "C05", [(SV, "            warnings.warn(\"Symmetry-conserving Bravyi-Kitaev enforces all spin-up followed by all spin-down ordering.\", RuntimeWarning)\n            vector = np.concatenate((vector[::2], vector[1::2]))", "            warnings.warn(\"Symmetry-conserving Bravyi-Kitaev enforces all spin-up followed by all spin-down ordering.\", RuntimeWarning)\n            vector = np.concatenate((vector[0::2], vector[1::2]))")]),
+    ("uccsd-spin-default-explicit-test", "C12", [(UCCSD, "        self.spin = molecule.active_spin if spin is None else spin", "        self.spin = spin if spin is not None else molecule.active_spin")]),
+    ("do-commute-all-terms", "C16", [(MULTI, "    if not term_resolved:\n        return not np.any(term_bool)\n    else:\n        return np.logical_not(term_bool)", "    commutes = np.logical_not(term_bool)\n\n    return commutes if term_resolved else bool(np.all(commutes))")]),
+    ("get-backend-default-target-recursion", "C19", [(SIMF, "    if target is None:\n        target = target_dict[default_simulator]\n    # If target is a string use target_dict to return built-in backend\n    elif isinstance(target, str):", "    if target is None:\n        return get_backend(default_simulator, n_shots=n_shots, noise_model=noise_model, **kwargs)\n    if isinstance(target, str):")]),
+    ("split-complement-as-set", "C18", [(POST, "    other_indices = [i for i in range(key_length) if i not in indices]", "    chosen = set(indices)\n    other_indices = [i for i in range(key_length) if i not in chosen]")]),
+    ("taper-sector-pairs-as-list", "C14", [(Z2TF, "        for index, eigenvalue in zip(q_indices, eigenvalues):", "        for index, eigenvalue in tapered_sector:"), (Z2TF, "    def do_taper(operator, eigenvalues=eigenvalues):", "    tapered_sector = list(zip(q_indices, eigenvalues))\n\n    def do_taper(operator, eigenvalues=eigenvalues):")]),
+    ("trim-relabels-sorted-without-list", "C14", [(CIRC, "        mapping = {ind: i for i, ind in enumerate(sorted(list(qubits_in_use)))}", "        mapping = {ind: i for i, ind in enumerate(sorted(qubits_in_use))}")]),
+    ("dmet-uhf-split-closed-form", "C15", [(DMETORBF, "        elec_diff = self.mol_full.spin\n        elec_paired = self.number_active_electrons-elec_diff\n        orbital_paired = elec_paired // 2", "        elec_diff = self.mol_full.spin\n        orbital_paired = (self.number_active_electrons - elec_diff) // 2")]),
+    ("iqpe-feedback-halving", "C20", [(IQPEF, "                self.phase += 1/2**(self.bitplace)", "                self.phase += 0.5**(self.bitplace)")]),
 ]
